@@ -71,6 +71,13 @@ type Client struct {
 	// that arrive meanwhile are announced before the rescan finishes, and the
 	// rescan covers them, as with a backend that rescans up to its current tip.
 	DuringRescan func()
+	// AfterProgress, when set, is called once right after the first
+	// RescanProgress of a Rescan call was queued: what it does to the chain (a
+	// reorg, new blocks) is announced at once, and the rescan then continues on
+	// the best chain as it is afterwards, from the last block both chains
+	// share - as a bitcoind-backed client does when the chain moves under a
+	// running rescan.
+	AfterProgress func()
 	// ProgressEvery > 0 makes Rescan report its progress (RescanProgress) after
 	// every ProgressEvery-th scanned block, as btcd does every few seconds and
 	// bitcoind-backed clients do every 10000 blocks.
@@ -528,6 +535,19 @@ func (cl *Client) Rescan(start *chainhash.Hash, addrs []btcutil.Address, ops map
 		}
 		if cl.ProgressEvery > 0 && int(h-from+1)%cl.ProgressEvery == 0 && int(h) < len(best)-1 {
 			cl.Push(&chain.RescanProgress{Hash: b.Hash, Height: b.Height, Time: b.Time()})
+			cl.mu.Lock()
+			hook := cl.AfterProgress
+			cl.AfterProgress = nil
+			cl.mu.Unlock()
+			if hook != nil {
+				hook()
+				now := cl.C.Best()
+				k := h
+				for int(k) >= len(now) || now[k].Hash != best[k].Hash {
+					k--
+				}
+				best, h = now, k
+			}
 		}
 	}
 	tip := best[len(best)-1]
